@@ -133,7 +133,9 @@ def check(rep):
                     if fam == "log_normal" and a_ <= 0:
                         continue
                     iv = float(d.prob_mw(interval(a_, b_)))
-                    want = integrate.quad(f, a_, b_)[0]
+                    # the uniform density jumps at its two ends: tell the quadrature where (otherwise its own error exceeds the tolerance)
+                    brk = [float(x) for x in (args[0], args[1]) if a_ < float(x) < b_] if fam == "uniform" else []
+                    want = integrate.quad(f, a_, b_, points=brk or None)[0]
                     if abs(iv - want) > 1e-5 or iv < -1e-12:
                         rep.fail("oracle", f"{t}: probability of ({a_:.3f}, {b_:.3f}] is {iv}, the density integrates to {want} there", ident, expected=want, observed=iv)
                 # a partition of the support must add up to 1
